@@ -11,10 +11,10 @@ from common import Ctx, MachineryError, pmap, write_json
 
 # deviation flag of the tree under test: '>=' leaves the delimiter space of \\geq visible
 IMPL_GE_SPACE = True
-ALPHA = {"x", "A", "B", "M", "p", "1", "sp", "^", "_", ">", "<", "=", "nl", "bs", "G", ".", "T", "F"}
-PLAN = {"quick": dict(maxlen=3, sim_len=10, sim_num=1500, ktemplates=6, comps=True),
+ALPHA = {"x", "A", "B", "M", "p", "1", "sp", "^", "_", ">", "<", "=", "nl", "bs", "G", "E", ".", "T", "F"}
+PLAN = {"quick": dict(maxlen=3, sim_len=10, sim_num=1500, ktemplates=7, comps=True),
         "thorough": dict(maxlen=4, sim_len=24, sim_num=20000, ktemplates=40, comps=True)}
-KTEMPLATES = [["K"], ["x", "sp", "K"], ["K", "sp", "x"], ["K", "K"], ["K", "x"], ["K", "G"], ["K", "1"], ["K", "."], ["^", "K"], ["K", ">", "="],
+KTEMPLATES = [["K"], ["x", "sp", "K"], ["K", "sp", "x"], ["K", "K"], ["K", "x"], ["K", "G"], ["K", "E"], ["K", "1"], ["K", "."], ["^", "K"], ["K", ">", "="],
               ["x", "K"], ["K", "nl", "K"], ["K", "sp", "K"], ["1", "K", "1"], ["K", "A"], ["K", "_", "x"], ["G", "K"], ["K", "sp", "sp", "x"],
               ["K", "p"], ["p", "K"], ["K", "T"], ["F", "K"], ["K", "<", "="], ["=", "K", "="], [".", "K", "."], ["K", "B", "x"], ["K", "x", "G"],
               ["K", "sp", "1"], ["x", "^", "K", "_", "x"], ["K", "K", "K"], ["K", "1", "sp", "x"], ["bs", "A", "K"], ["K", "bs", "A"], ["K", "bs", "M", "G"],
@@ -162,7 +162,7 @@ def run(pid, tier, seed, replay=None):
                         if not k["braced"]:
                             if run_ and (cmd + run_) in table:
                                 ok = False
-                            if q < len(tpl) and tpl[q] == "G" and (cmd + run_ + "{R}") in table:
+                            if q < len(tpl) and tpl[q] in ("G", "E") and (cmd + run_ + textconv.PIECES[tpl[q]]) in table:
                                 ok = False
                         if not cmd[1:2].isalpha():
                             ok = ok and not run_
